@@ -298,21 +298,14 @@ func (t *Thread) processIncomingInterest(packet *defn.Pkt) {
 	// Update PIT entry expiration timer
 	table.UpdateExpirationTimer(pitEntry)
 
-	// If NextHopFaceId set, forward to that face (if it exists) or drop
+	// If NextHopFaceId set, forward to that face (if it exists) or drop.
+	// The outgoing Interest pipeline applies the same guards as for any other nexthop (not back
+	// to the incoming face, hop limit, /localhost scope), records the out-record and attaches
+	// this forwarder's PIT token, so that the returning Data finds the PIT entry.
 	if packet.NextHopFaceID != nil {
-		if nextHopFace := dispatch.GetFace(*packet.NextHopFaceID); nextHopFace != nil {
-			// Check if violates /localhost
-			if nextHopFace.Scope() == defn.NonLocal && len(interest.NameV) > 0 &&
-				bytes.Equal(interest.NameV[0].Val, LOCALHOST) {
-				core.LogWarn(t, "Interest ", packet.Name, " cannot be sent to non-local FaceID=", *packet.NextHopFaceID, " since violates /localhost scope - DROP")
-				return
-			}
+		if dispatch.GetFace(*packet.NextHopFaceID) != nil {
 			core.LogTrace(t, "NextHopFaceId is set for Interest ", packet.Name, " - dispatching directly to face")
-			dispatch.GetFace(*packet.NextHopFaceID).SendPacket(dispatch.OutPkt{
-				Pkt:      packet,
-				PitToken: packet.PitToken, // TODO: ??
-				InFace:   packet.IncomingFaceID,
-			})
+			t.processOutgoingInterest(packet, pitEntry, *packet.NextHopFaceID, incomingFace.FaceID())
 		} else {
 			core.LogInfo(t, "Non-existent face specified in NextHopFaceId for Interest ", packet.Name, " - DROP")
 		}
